@@ -285,11 +285,14 @@ def run(ctx):
         "macro must be an alias of its prefixed twin.")
     ctx.assumptions = ["clang 14 / g++ 12 front ends and libstdc++ 12 as installed",
                        "quick tier: clang++ at C++14 and C++20; thorough: clang++ and g++ at C++14/17/20"]
-    ctx.not_decided = ["coroutine clause matrix is generated under C20's check; the shipped coroutine "
-                       "negatives are covered here (C19.a)"]
+    ctx.not_decided = []
     shipped(ctx)
     hygiene(ctx)
     generated(ctx)
     census(ctx)
+    # coroutine clauses: legal orders on coroutine functions, misuse on coroutine functions, and every coroutine
+    # clause on an ordinary function in every position relative to the ordinary clauses (C20.e's matrix)
+    from rules import C20
+    C20.c20e(ctx)
     ctx.extra["exhaustive_over"] = ("clause orders: all permutations of all subsets of {WITH, SIDE_EFFECT, "
                                     "TIMES|RT_TIMES, IN_SEQUENCE} + finisher, for void/value/reference signatures")
